@@ -49,7 +49,7 @@ pub fn selective(f: Fam) -> bool {
 fn inner_spec(item: &PItem, slot: usize) -> Spec {
     let nv = item.u("inv", 0);
     let al = item.u("ial", 0);
-    Spec { never: slot < 64 && (nv >> slot) & 1 == 1, always: slot < 64 && (al >> slot) & 1 == 1, can_err: false, eager: false }
+    Spec { never: slot < 64 && (nv >> slot) & 1 == 1, always: slot < 64 && (al >> slot) & 1 == 1, can_err: false, eager: false, lazy: false }
 }
 
 fn snodes(item: &PItem, comb: u16, n: usize, depth: usize) -> Vec<SNode> {
